@@ -9,7 +9,7 @@ ID = "C12"
 LEVEL = "exploration"
 RULE = ("cases are programs over optional int / str / list / object values held in variables, parameters, function results, "
         "built-in results (wrapped present values), list elements and class fields, built from a random sequence of uses of `== nil`, `get`, `(x) or y` (fallback = logging call, so "
-        "laziness is observable), `a ?= e` in statement / if / while position, at module level, in nested blocks and in "
+        "laziness is observable), `get` applied directly to a variable / list element / object field / call result that is nil or present, `a ?= e` in statement / if / while position, at module level, in nested blocks and in "
         "functions, each use drawn with a nil or a present operand; oracle = reference interpreter (stdout exactly; for "
         "`get nil`: non-zero exit, message `unwrap of nil` with file:line:col inside that get expression). Non-trivial = the "
         "program evaluates the same construct kind on both a nil and a present value; distinct by program text")
@@ -265,6 +265,30 @@ def cases(draw):
         pre.append(("decl", nm, ("opt", base), ("nil",) if k == "nil" else (I(g.int(-5, 9)) if base == "int" else S("init")), ()))
         c.vars[nm] = base
     body = pre + gen_stmts(c, g.int(3, 10), 0)
+    if g.chance(30):
+        # end the program with a `get` applied DIRECTLY to each kind of operand, nil or present: a nil operand must stop
+        # the program at this statement with the position of this get (nothing after it may print)
+        kind = g.choice(["var", "elem", "field", "call", "elem-in-expr", "field-of-element"])
+        nil = g.chance(60)
+        g.label("final-get:%s:%s" % (kind, "nil" if nil else "present"))
+        c.seen.add(("get", "nil" if nil else "present"))
+        if kind == "var":
+            body.append(("decl", "fg_v", OI, ("nil",) if nil else I(7), ()))
+            body.append(("print", ("get", V("fg_v"))))
+        elif kind == "elem":
+            body.append(("print", ("get", ("index", V("lo"), I(1 if nil else 2)))))
+        elif kind == "elem-in-expr":
+            body.append(("print", ("bin", "+", I(1), ("get", ("index", V("lo"), I(1 if nil else 0))))))
+        elif kind == "field":
+            body.append(("decl", "fg_o", None, ("new", "KO", [("nil",) if nil else I(5)]), ()))
+            body.append(("print", ("get", ("field", V("fg_o"), "o"))))
+        elif kind == "field-of-element":
+            body.append(("decl", "fg_l", None, ("list", [("new", "KO", [("nil",) if nil else I(5)])]), ()))
+            body.append(("decl", "fg_e", None, ("index", V("fg_l"), I(0)), ()))
+            body.append(("print", ("get", ("field", V("fg_e"), "o"))))
+        else:
+            body.append(("print", ("get", ("call", V("mk"), [I(c.key()), B(not nil)]))))
+        body.append(("print", S("after-final-get")))
     if in_fn:
         g.label("in-function")
         stmts.append(("decl", "body", None, ("fn", [("par", OI), ("pas", OS)], None, [("decl", "o_par", OI, V("par"), ())] + body), ()))
